@@ -37,6 +37,7 @@ struct RunResult
     std::vector<std::string> kinds;
     int unsupported_ops = 0; // e.g. AVX-512 variant in a build without it
     std::map<int, std::vector<sim::Switch>> recorded; // op index -> decisions of its main execution (when g_record)
+    std::map<int, std::vector<sim::Switch>> recorded2; // op index -> decisions of its second simulated execution (nested transform)
     bool recorded_truncated = false;
     std::vector<uint64_t> op_digest; // per op: digest of the outputs of its simulated execution
 };
